@@ -13,7 +13,7 @@ import vf, ir, back, extract, c05types as T
 from vf import S, Lst
 
 LANGS = ['typescript', 'kotlin', 'swift', 'scala', 'go', 'python']
-CONST_LANGS = ('typescript', 'go', 'python')     # Kotlin / Swift: todo!() (C07); Scala drops consts (C03)
+CONST_LANGS = ('typescript', 'go', 'python')     # Kotlin / Swift: write_const returns Err(Unsupported) (no const support); Scala drops consts (C03)
 
 
 def site_type(rng, g, d=None):
